@@ -357,7 +357,7 @@ class Summariser:
         if not need and not fstr:
             return e  # shared, never mutated
         out = _Sub(env).visit(copy.deepcopy(e)) if need else copy.deepcopy(e)
-        if fstr or any(isinstance(n, ast.JoinedStr) for n in ast.walk(out)):
+        if fstr or any(isinstance(n, (ast.JoinedStr, ast.ListComp)) for n in ast.walk(out)):
             out = _Flat().visit(out)
         return out
 
@@ -392,14 +392,16 @@ class Summariser:
                 val = self.subst(test.value, env)
                 env2 = dict(env)
                 self.bind(test.target, val, env2)
-                return self.branch(env2[test.target.id], (env2, trace), True)
+                tr2 = trace if _readonly(test.value) else trace + (("e", f"_ := {src(val)}"),)
+                return self.branch(env2[test.target.id], (env2, tr2), True)
             if isinstance(test, ast.Compare) and len(test.ops) == 1 and isinstance(test.left, ast.NamedExpr) and isinstance(test.left.target, ast.Name):
                 val = self.subst(test.left.value, env)
                 env2 = dict(env)
                 self.bind(test.left.target, val, env2)
+                tr2 = trace if _readonly(test.left.value) else trace + (("e", f"_ := {src(val)}"),)
                 val = env2[test.left.target.id]
                 new = ast.Compare(left=val, ops=test.ops, comparators=[self.subst(c, env2) for c in test.comparators])
-                return self.branch(new, (env2, trace), True)
+                return self.branch(new, (env2, tr2), True)
             e = self.subst(test, env)
             if isinstance(e, (ast.BoolOp, ast.IfExp)) or (isinstance(e, ast.UnaryOp) and isinstance(e.op, ast.Not)):
                 return self.branch(e, st, True)
@@ -443,18 +445,24 @@ class Summariser:
                 break
             nxt = []
             for st in cur:
-                for env, trace in self.stmt(s, st):
-                    t = _ticks(trace) + env.get("__ib", 0)
-                    bt = env.get("__bt") or {}
-                    if env.get("__t") != t or -1 in bt.values():
-                        env = dict(env)
-                        env["__t"] = t
-                        if -1 in bt.values():
-                            env["__bt"] = {k: (t if v == -1 else v) for k, v in bt.items()}
-                    nxt.append((env, trace))
+                for st2 in self.stmt(s, st):
+                    nxt.append(self._clock(st2))
             cur = nxt
             self._budget(len(cur))
         return cur
+
+    @staticmethod
+    def _clock(st):
+        """advance the logical clock of a state to its trace and fix the bind time of what was just bound"""
+        env, trace = st
+        t = _ticks(trace) + env.get("__ib", 0)
+        bt = env.get("__bt") or {}
+        if env.get("__t") != t or -1 in bt.values():
+            env = dict(env)
+            env["__t"] = t
+            if -1 in bt.values():
+                env["__bt"] = {k: (t if v == -1 else v) for k, v in bt.items()}
+        return env, trace
 
     def emit(self, st, kind, value):
         env, trace = st
@@ -547,7 +555,7 @@ class Summariser:
         if isinstance(s, ast.If):
             out = []
             for s2, t in self.branch(s.test, st):
-                out.extend(self.block(s.body if t else s.orelse, [s2]))
+                out.extend(self.block(s.body if t else s.orelse, [self._clock(s2)]))
             return out
         if isinstance(s, ast.Assert):
             return [(env, trace + (("a", src(self.subst(s.test, env))),))]
@@ -681,9 +689,21 @@ class Summariser:
                 out = [(e, t + (("finally-of-exits", fin),)) for e, t in out]
             return out
         if isinstance(s, (ast.FunctionDef, ast.AsyncFunctionDef)):
-            inner = summarise(s, self.max_paths)
-            sig = src(s.args) + "|" + ",".join(src(d) for d in s.decorator_list)
-            body = " || ".join(sorted(describe_path(p) for p in inner)) if inner is not None else src(s)
+            # parameters of a nested function get canonical names (they are local to the enclosing function)
+            s2 = copy.deepcopy(s)
+            a = s2.args
+            plist = [*a.posonlyargs, *a.args, *a.kwonlyargs] + ([a.vararg] if a.vararg else []) + ([a.kwarg] if a.kwarg else [])
+            ren = {p.arg: f"_p{i}" for i, p in enumerate(plist)}
+            for n in ast.walk(s2):
+                if isinstance(n, ast.Name) and n.id in ren:
+                    n.id = ren[n.id]
+                elif isinstance(n, ast.arg) and n.arg in ren:
+                    n.arg = ren[n.arg]
+                    n.annotation = None
+            s2.returns = None
+            inner = summarise(s2, self.max_paths)
+            sig = src(s2.args) + "|" + ",".join(src(d) for d in s2.decorator_list)
+            body = " || ".join(sorted(describe_path(p) for p in inner)) if inner is not None else src(s2)
             return [(env, trace + (("def", s.name, sig, body),))]
         if isinstance(s, ast.ClassDef):
             return [(env, trace + (("class", src(s)),))]
@@ -732,23 +752,57 @@ def _as_load(t):
     return t
 
 
+CONSUMERS = {"join", "all", "any", "sum", "set", "list", "tuple", "sorted", "min", "max", "frozenset", "extend", "update", "And", "Or",
+             "smt_or", "smt_and", "dict", "Concat", "concat"}
+
+
 class _Canon(ast.NodeTransformer):
-    """canonical names for comprehension variables; nested f-strings flattened"""
+    """canonical names for comprehension variables (by nesting depth); `map(f, xs)` / `map(lambda x: E, xs)` as a
+    generator expression; a list comprehension that is the only argument of a call consuming it whole (join, all, sum,
+    set, extend, ...) as a generator expression; nested f-strings flattened"""
 
     def __init__(self):
-        self.n = 0
+        self.depth = 0
+
+    def visit_Call(self, node):
+        # map(F, it) -> (F(c) for c in it)
+        if isinstance(node.func, ast.Name) and node.func.id == "map" and len(node.args) == 2 and not node.keywords:
+            f, it = node.args
+            var = ast.Name(id="_m", ctx=ast.Load())
+            if isinstance(f, ast.Lambda) and len(f.args.args) == 1 and not (f.args.vararg or f.args.kwarg or f.args.kwonlyargs or f.args.defaults):
+                pname = f.args.args[0].arg
+                body = copy.deepcopy(f.body)
+                for n in ast.walk(body):
+                    if isinstance(n, ast.Name) and n.id == pname:
+                        n.id = "_m"
+                elt = body
+            elif isinstance(f, (ast.Name, ast.Attribute)):
+                elt = ast.Call(func=f, args=[var], keywords=[])
+            else:
+                elt = None
+            if elt is not None:
+                node = ast.GeneratorExp(elt=elt, generators=[ast.comprehension(target=ast.Name(id="_m", ctx=ast.Store()), iter=it, ifs=[], is_async=0)])
+                return self.visit(node)
+        self.generic_visit(node)
+        name = node.func.attr if isinstance(node.func, ast.Attribute) else (node.func.id if isinstance(node.func, ast.Name) else "")
+        if name in CONSUMERS and len(node.args) == 1 and not node.keywords and isinstance(node.args[0], ast.ListComp):
+            lc = node.args[0]
+            node.args[0] = ast.GeneratorExp(elt=lc.elt, generators=lc.generators)
+        return node
 
     def _comp(self, node):
-        self.generic_visit(node)
+        self.depth += 1
+        d = self.depth
+        try:
+            self.generic_visit(node)
+        finally:
+            self.depth -= 1
         bound = []
         for g in node.generators:
             for n in ast.walk(g.target):
                 if isinstance(n, ast.Name) and n.id not in bound:
                     bound.append(n.id)
-        m = {}
-        for b in bound:
-            self.n += 1
-            m[b] = f"_c{self.n}"
+        m = {b: f"_c{d}_{i}" for i, b in enumerate(bound)}
         first_iter = node.generators[0].iter
         for n in ast.walk(node):
             if isinstance(n, ast.Name) and n.id in m and not _inside(first_iter, n):
@@ -779,14 +833,170 @@ class _Canon(ast.NodeTransformer):
 class _Flat(ast.NodeTransformer):
     visit_JoinedStr = _Canon.visit_JoinedStr
 
+    def visit_Call(self, node):
+        self.generic_visit(node)
+        name = node.func.attr if isinstance(node.func, ast.Attribute) else (node.func.id if isinstance(node.func, ast.Name) else "")
+        if name in CONSUMERS and len(node.args) == 1 and not node.keywords and isinstance(node.args[0], ast.ListComp):
+            lc = node.args[0]
+            node.args[0] = ast.GeneratorExp(elt=lc.elt, generators=lc.generators)
+        return node
+
 
 def _inside(root, n) -> bool:
     return any(x is n for x in ast.walk(root))
 
 
+def _append_idiom(loop):
+    """for t in it: [if C:] X.append(E)   ->   (X, [E for t in it if C])   (None if the loop is anything else)"""
+    if not isinstance(loop, ast.For) or loop.orelse or len(loop.body) != 1:
+        return None
+    st = loop.body[0]
+    conds = []
+    while isinstance(st, ast.If) and not st.orelse and len(st.body) == 1:
+        conds.append(st.test)
+        st = st.body[0]
+    if not (isinstance(st, ast.Expr) and isinstance(st.value, ast.Call)):
+        return None
+    c = st.value
+    if not (isinstance(c.func, ast.Attribute) and c.func.attr == "append" and isinstance(c.func.value, ast.Name) and len(c.args) == 1 and not c.keywords):
+        return None
+    x = c.func.value.id
+    used = {n.id for part in (loop.iter, c.args[0], *conds) for n in ast.walk(part) if isinstance(n, ast.Name)}
+    if x in used or any(isinstance(n, (ast.Yield, ast.YieldFrom, ast.Await, ast.NamedExpr)) for n in ast.walk(loop)):
+        return None
+    test = conds[0] if len(conds) == 1 else (ast.BoolOp(op=ast.And(), values=conds) if conds else None)
+    comp = ast.ListComp(elt=c.args[0], generators=[ast.comprehension(target=loop.target, iter=loop.iter, ifs=[test] if test is not None else [], is_async=0)])
+    return x, comp
+
+
+class _Idioms(ast.NodeTransformer):
+    """statement-level idioms: `X = []` ... `for t in it: X.append(E)` is `X = [E for t in it]` when nothing touches X in
+    between; a `match` over literal / fixed-length sequence / class / wildcard patterns is an if-chain"""
+
+    def _rewrite_list(self, body):
+        out = []
+        for st in body:
+            st = self.visit(st)
+            idiom = _append_idiom(st)
+            if idiom is not None:
+                x, comp = idiom
+                # the list must be a fresh empty list bound earlier in this block and untouched since
+                k = None
+                for j in range(len(out) - 1, -1, -1):
+                    p = out[j]
+                    names = {n.id for n in ast.walk(p) if isinstance(n, ast.Name)}
+                    if isinstance(p, ast.Assign) and len(p.targets) == 1 and isinstance(p.targets[0], ast.Name) and p.targets[0].id == x:
+                        if isinstance(p.value, ast.List) and not p.value.elts:
+                            k = j
+                        break
+                    if x in names:
+                        break
+                if k is not None:
+                    new = ast.copy_location(ast.Assign(targets=[ast.Name(id=x, ctx=ast.Store())], value=comp), st)
+                    ast.fix_missing_locations(new)
+                    del out[k]
+                    out.append(new)
+                    continue
+            out.append(st)
+        return out
+
+    def generic_visit(self, node):
+        for fld in ("body", "orelse", "finalbody"):
+            lst = getattr(node, fld, None)
+            if isinstance(lst, list) and lst and isinstance(lst[0], ast.stmt):
+                setattr(node, fld, self._rewrite_list(lst))
+        for h in getattr(node, "handlers", []) or []:
+            h.body = self._rewrite_list(h.body)
+        return node
+
+    def visit_Match(self, node):
+        chain = _desugar_match(node)
+        if chain is None:
+            for c in node.cases:
+                c.body = self._rewrite_list(c.body)
+            return node
+        return self.generic_visit(chain)
+
+
+def _pattern_test(subj, pat):
+    """(test expression, [(name, value expression)]) for simple patterns; None if not simple"""
+    if isinstance(pat, ast.MatchValue):
+        return ast.Compare(left=subj, ops=[ast.Eq()], comparators=[pat.value]), []
+    if isinstance(pat, ast.MatchSingleton):
+        return ast.Compare(left=subj, ops=[ast.Is()], comparators=[ast.Constant(value=pat.value)]), []
+    if isinstance(pat, ast.MatchAs) and pat.pattern is None:
+        return ast.Constant(value=True), ([(pat.name, subj)] if pat.name else [])
+    if isinstance(pat, ast.MatchClass) and not pat.patterns and not pat.kwd_patterns:
+        return ast.Call(func=ast.Name(id="isinstance", ctx=ast.Load()), args=[subj, pat.cls], keywords=[]), []
+    if isinstance(pat, ast.MatchOr):
+        parts = [_pattern_test(subj, p) for p in pat.patterns]
+        if any(p is None or p[1] for p in parts):
+            return None
+        return ast.BoolOp(op=ast.Or(), values=[p[0] for p in parts]), []
+    if isinstance(pat, ast.MatchSequence) and not any(isinstance(p, ast.MatchStar) for p in pat.patterns):
+        n = len(pat.patterns)
+        tests = [ast.Compare(left=ast.Call(func=ast.Name(id="len", ctx=ast.Load()), args=[subj], keywords=[]), ops=[ast.Eq()], comparators=[ast.Constant(value=n)])]
+        binds = []
+        for i, p in enumerate(pat.patterns):
+            sub = _pattern_test(ast.Subscript(value=subj, slice=ast.Constant(value=i), ctx=ast.Load()), p)
+            if sub is None:
+                return None
+            t, b = sub
+            if not (isinstance(t, ast.Constant) and t.value is True):
+                tests.append(t)
+            binds += b
+        test = tests[0] if len(tests) == 1 else ast.BoolOp(op=ast.And(), values=tests)
+        return test, binds
+    return None
+
+
+class _SubNames(ast.NodeTransformer):
+    def __init__(self, m):
+        self.m = m
+
+    def visit_Name(self, node):
+        if isinstance(node.ctx, ast.Load) and node.id in self.m:
+            return copy.deepcopy(self.m[node.id])
+        return node
+
+
+def _desugar_match(node: ast.Match):
+    subj = node.subject
+    prefix = []
+    if not isinstance(subj, (ast.Name, ast.Attribute, ast.Constant)):
+        # evaluated once: bind it first
+        tmp = f"_ms{getattr(node, 'lineno', 0)}"
+        prefix = [ast.Assign(targets=[ast.Name(id=tmp, ctx=ast.Store())], value=subj)]
+        subj = ast.Name(id=tmp, ctx=ast.Load())
+    arms = []
+    for c in node.cases:
+        pt = _pattern_test(subj, c.pattern)
+        if pt is None:
+            return None
+        test, binds = pt
+        binds = [(n, v) for n, v in binds if n != "_"]
+        if c.guard is not None:
+            guard = _SubNames({n: v for n, v in binds}).visit(copy.deepcopy(c.guard))
+            test = guard if (isinstance(test, ast.Constant) and test.value is True) else ast.BoolOp(op=ast.And(), values=[test, guard])
+        pre = [ast.Assign(targets=[ast.Name(id=n, ctx=ast.Store())], value=copy.deepcopy(v)) for n, v in binds]
+        arms.append((test, [*pre, *c.body]))
+    chain = []
+    for test, body in reversed(arms):
+        if isinstance(test, ast.Constant) and test.value is True:
+            chain = body
+            continue
+        chain = [ast.If(test=copy.deepcopy(test), body=body, orelse=chain)]
+    out = ast.If(test=ast.Constant(value=True), body=[*prefix, *(chain or [ast.Pass()])], orelse=[])
+    ast.copy_location(out, node)
+    ast.fix_missing_locations(out)
+    return out
+
+
 def canonical(stmts):
     c = _Canon()
-    return [c.visit(copy.deepcopy(s)) for s in stmts]
+    holder = ast.Module(body=[copy.deepcopy(s) for s in stmts], type_ignores=[])
+    _Idioms().generic_visit(holder)
+    return [c.visit(s) for s in holder.body]
 
 
 def _env_text(env: dict, names) -> tuple:
@@ -806,6 +1016,10 @@ def _env_text(env: dict, names) -> tuple:
 def summarise_block(stmts, max_paths: int = 2000, live: set[str] | None = None, nested_asserts: set | None = None, captured: set | None = None) -> list[Path] | None:
     """paths of a statement list; 'fall' paths carry the values of the locals in `live` bound on the path;
     assert texts met inside loop bodies are added to `nested_asserts`"""
+    try:
+        stmts = canonical(stmts)
+    except RecursionError:
+        return None
     sm = Summariser(max_paths=max_paths, liveset=None if live is None else (nondiagnostic_loads(stmts) | live))
     sm.shared["captured"] = {
         n.id
@@ -821,7 +1035,6 @@ def summarise_block(stmts, max_paths: int = 2000, live: set[str] | None = None, 
     if nested_asserts is not None:
         sm.shared["asserts"] = nested_asserts
     try:
-        stmts = canonical(stmts)
         rest = sm.block(stmts, [({}, ())])
         stored = _stored_names(stmts)
         if live is not None:
